@@ -1,1 +1,273 @@
-(* Uper/Spec.v -- stub, to be filled *)
+(* L2 specification layer for C01 / C03:
+     - [enc]: an implementation-shaped but scope-free, compositional reference encoder
+       (no writer state, no back-patching: presence bits are computed up front);
+     - [wf_ty] / [wf_val]: descriptor constants as the compiler derives them / values of the
+       generated Rust type;
+     - [Known_C01]: the excluded classes (the model reproduces real defects of the crate).
+   Nothing here is used by the executable model; Uper/Proofs.v relates it to Writer.v/Reader.v. *)
+From A1 Require Export Uper.Reader.
+From A1 Require Export Per.X691 Per.Proofs.
+Local Open Scope N_scope.
+
+(** * the compositional reference encoder *)
+
+Definition is_choice (t : ty) : bool := match t with TChoice _ _ _ => true | _ => false end.
+Definition is_optk (k : fkind) : bool := match k with FReq => false | _ => true end.
+(* which present extension additions are wrapped as open types by the crate: everything written
+   through write_opt, and mandatory additions except CHOICE; DEFAULT additions never *)
+Definition wraps (k : fkind) (ft : ty) : bool :=
+  match k with FReq => negb (is_choice ft) | FOpt => true | FDef _ => false end.
+
+(* open type: the content padded to octets, as an unconstrained OCTET STRING *)
+Definition wrap_open (m : mode) (b : bits) : res bits :=
+  w_octetstring m None None false (bytes_of_bits b).
+
+(* write_extensible_bit_and_length_or_err *)
+Definition len_hdr (m : mode) (ext : bool) (lo hi : option N) (upper len : N) : res bits :=
+  let oor := (len <? opt_or lo 0) || (opt_or hi upper <? len) in
+  let pre := if ext then [oor] else [] in
+  if oor then
+    if negb ext then Err E_SIZE_RANGE
+    else let! (b, _) := w_length_determinant m None None len in Ok (pre ++ b)
+  else let! (b, _) := w_length_determinant m lo hi len in Ok (pre ++ b).
+
+Definition int_enc (m : mode) (lo hi : option Z) (ext : bool) (z : Z) : res bits :=
+  let value := to_i64 z in
+  let max_fn :=
+    if ext then ((value <? opt_or lo 0) || (opt_or hi I64_MAXz <? value))%Z
+    else negb (is_some lo) && negb (is_some hi) in
+  let! b := (if max_fn then w_unconstrained m value
+             else w_constrained m (opt_or lo 0%Z) (opt_or hi I64_MAXz) value) in
+  Ok ((if ext then [max_fn] else []) ++ b).
+
+(* per-component result of a SEQUENCE: (present, direct encoding of the value or [] when absent) *)
+Definition fenc := (bool * bits)%type.
+
+(* one presence bit per OPTIONAL/DEFAULT component, in order *)
+Fixpoint flags_of (fs : list (fkind * ty)) (fes : list fenc) : bits :=
+  match fs, fes with
+  | (k, _) :: fs', (p, _) :: fes' => (if is_optk k then [p] else []) ++ flags_of fs' fes'
+  | _, _ => []
+  end.
+Definition payload_of (fes : list fenc) : bits := concat (map snd fes).
+
+Fixpoint add_payloads (m : mode) (fs : list (fkind * ty)) (fes : list fenc) : res bits :=
+  match fs, fes with
+  | (k, ft) :: fs', (p, b) :: fes' =>
+      let! x := (if p && wraps k ft then wrap_open m b else Ok b) in
+      let! r := add_payloads m fs' fes' in Ok (x ++ r)
+  | _, _ => Ok []
+  end.
+
+(* the extension part: nothing when there is no addition in the type; otherwise the crate
+   sets the extension bit from the FIRST addition and refuses later ones when it is absent *)
+Definition ext_part (m : mode) (afs : list (fkind * ty)) (afe : list fenc) : res (bool * bits) :=
+  match afe with
+  | [] => Ok (false, [])
+  | (p1, _) :: rest =>
+      if p1 then
+        let! ns := w_normally_small m (N.of_nat (length afe) - 1) in
+        let! ap := add_payloads m afs afe in
+        Ok (true, ns ++ map fst afe ++ ap)
+      else if existsb fst rest then Err E_EXT_INCONSISTENT
+      else Ok (false, [])
+  end.
+
+Definition seq_assemble (m : mode) (fs : list (fkind * ty)) (fes : list fenc) (ea : option N) : res bits :=
+  match ea with
+  | None => Ok (flags_of fs fes ++ payload_of fes)
+  | Some e =>
+      let k := S (N.to_nat e) in
+      let rfs := firstn k fs in let rfe := firstn k fes in
+      let! (eb, xp) := ext_part m (skipn k fs) (skipn k fes) in
+      Ok (eb :: flags_of rfs rfe ++ payload_of rfe ++ xp)
+  end.
+
+Fixpoint enc (m : mode) (t : ty) (v : val) {struct t} : res bits :=
+  match t, v with
+  | TBool, VBool b => Ok [b]
+  | TNull, VNull => Ok []
+  | TInt k lo hi ext, VInt z => int_enc m lo hi ext z
+  | TStr Utf8 lo hi ext, VStr chars =>
+      let n := N.of_nat (length chars) in
+      if negb ext && ((n <? opt_or lo 0) || (opt_or hi U64_MAX <? n)) then Err E_SIZE_RANGE
+      else w_octetstring m None None false (utf8_encode chars)
+  | TStr c lo hi ext, VStr chars =>
+      if find_invalid c chars then Err E_INVALID_STRING else
+      let! h := len_hdr m ext lo hi U64_MAX (N.of_nat (length chars)) in
+      Ok (h ++ flat_map (char_bits c) chars)
+  | TOctets lo hi ext, VOctets bs => w_octetstring m lo hi ext bs
+  | TBitStr lo hi ext, VBits bs n => w_bitstring m lo hi ext bs 0 n
+  | TListOf e lo hi ext, VList vs =>
+      let! h := len_hdr m ext lo hi I64_MAX (N.of_nat (length vs)) in
+      let! body :=
+        (fix elems (vs : list val) : res bits :=
+           match vs with
+           | [] => Ok []
+           | x :: r => let! a := enc m e x in let! b := elems r in Ok (a ++ b)
+           end) vs in
+      Ok (h ++ body)
+  | TSeq fs so fc ea, VSeq vals =>
+      let! fes :=
+        (fix go (fs : list (fkind * ty)) (vals : list (option val)) : res (list fenc) :=
+           match fs, vals with
+           | [], _ => Ok []
+           | (FReq, ft) :: fs', Some x :: vals' =>
+               let! b := enc m ft x in let! r := go fs' vals' in Ok ((true, b) :: r)
+           | (FOpt, ft) :: fs', None :: vals' =>
+               let! r := go fs' vals' in Ok ((false, []) :: r)
+           | (FOpt, ft) :: fs', Some x :: vals' =>
+               let! b := enc m ft x in let! r := go fs' vals' in Ok ((true, b) :: r)
+           | (FDef d, ft) :: fs', Some x :: vals' =>
+               if val_eqb d x then let! r := go fs' vals' in Ok ((false, []) :: r)
+               else let! b := enc m ft x in let! r := go fs' vals' in Ok ((true, b) :: r)
+           | _, _ => Panic P_OTHER
+           end) fs vals in
+      seq_assemble m fs fes ea
+  | TChoice alts std ext, VChoice index x =>
+      let! ib := w_enumeration_index m std ext index in
+      let! cb :=
+        (fix pick (alts : list ty) (i : nat) : res bits :=
+           match alts, i with
+           | a :: _, O => enc m a x
+           | _ :: r, S i' => pick r i'
+           | [], _ => Panic P_OTHER
+           end) alts (N.to_nat index) in
+      if std <=? index then let! wb := wrap_open m cb in Ok (ib ++ wb) else Ok (ib ++ cb)
+  | TEnum vc std ext, VEnum index => w_enumeration_index m std ext index
+  | _, _ => Panic P_OTHER
+  end.
+
+(** * well-formed values and types *)
+
+Definition scalar (c : N) : Prop := c < 55296 \/ (57344 <= c /\ c < 1114112).
+Definition SIZE_LIMIT : N := 4294967296.
+
+(* BitVec(bytes, n): exactly the octets holding n bits, unused trailing bits zero *)
+Definition canonical_bits (bytes : list N) (n : N) : Prop :=
+  Forall (fun b => b < 256) bytes /\ blen bytes = (n + 7) / 8 /\
+  skipn (N.to_nat n) (bits_of_bytes bytes) = repeat false (N.to_nat (8 * blen bytes - n)).
+
+Fixpoint wf_val (t : ty) (v : val) {struct t} : Prop :=
+  match t, v with
+  | TBool, VBool _ => True
+  | TNull, VNull => True
+  | TInt k _ _ _, VInt z => ik_fitsb k z = true
+  | TStr _ _ _ _, VStr cs => Forall scalar cs /\ blen (utf8_encode cs) < SIZE_LIMIT   (* String::len() *)
+  | TOctets _ _ _, VOctets bs => Forall (fun b => b < 256) bs /\ blen bs < SIZE_LIMIT
+  | TBitStr _ _ _, VBits bs n => canonical_bits bs n /\ n < SIZE_LIMIT
+  | TListOf e _ _ _, VList vs =>
+      N.of_nat (length vs) < SIZE_LIMIT /\
+      (fix all (vs : list val) : Prop :=
+         match vs with [] => True | x :: r => wf_val e x /\ all r end) vs
+  | TSeq fs _ _ _, VSeq vals =>
+      (fix all (fs : list (fkind * ty)) (vals : list (option val)) : Prop :=
+         match fs, vals with
+         | [], [] => True
+         | (k, ft) :: fs', ov :: vals' =>
+             match ov with
+             | Some x => wf_val ft x
+             | None => k = FOpt
+             end /\ all fs' vals'
+         | _, _ => False
+         end) fs vals
+  | TChoice alts _ _, VChoice i x =>
+      (fix pick (alts : list ty) (n : nat) : Prop :=
+         match alts, n with
+         | a :: _, O => wf_val a x
+         | _ :: r, S n' => pick r n'
+         | [], _ => False
+         end) alts (N.to_nat i)
+  | TEnum vc _ _, VEnum i => i < vc
+  | _, _ => False
+  end.
+
+Definition opt_i64 (o : option Z) : Prop := match o with Some z => is_i64 z | None => True end.
+Definition size_bounds_ok (lo hi : option N) : Prop :=
+  match lo, hi with Some l, Some h => l <= h | _, _ => True end.
+
+(* number of presence bits of a component list *)
+Definition nopt (fs : list (fkind * ty)) : nat := length (filter (fun f => is_optk (fst f)) fs).
+Definition root_len (fs : list (fkind * ty)) (ea : option N) : nat :=
+  match ea with Some e => S (N.to_nat e) | None => length fs end.
+
+Fixpoint wf_ty (t : ty) : Prop :=
+  match t with
+  | TBool | TNull => True
+  | TInt _ lo hi _ => opt_i64 lo /\ opt_i64 hi /\
+                      match lo, hi with Some l, Some h => (l <= h)%Z | _, _ => True end
+  | TStr _ lo hi _ | TOctets lo hi _ | TBitStr lo hi _ => size_bounds_ok lo hi
+  | TListOf e lo hi _ => size_bounds_ok lo hi /\ wf_ty e
+  | TSeq fs so fc ea =>
+      fc = N.of_nat (length fs) /\ fc < SIZE_LIMIT /\
+      match ea with Some e => e < fc | None => True end /\
+      so = N.of_nat (nopt (firstn (root_len fs ea) fs)) /\
+      (fix all (fs : list (fkind * ty)) : Prop :=
+         match fs with
+         | [] => True
+         | (k, ft) :: fs' =>
+             wf_ty ft /\ match k with FDef d => wf_val ft d | _ => True end /\ all fs'
+         end) fs
+  | TChoice alts std ext =>
+      1 <= std /\ std <= N.of_nat (length alts) /\ N.of_nat (length alts) < SIZE_LIMIT /\
+      (ext = false -> std = N.of_nat (length alts)) /\
+      (fix all (alts : list ty) : Prop :=
+         match alts with [] => True | a :: r => wf_ty a /\ all r end) alts
+  | TEnum vc std ext =>
+      1 <= std /\ std <= vc /\ vc < SIZE_LIMIT /\ (ext = false -> std = vc)
+  end.
+
+(** * the excluded classes *)
+
+(* a count written through write_extensible_bit_and_length_or_err (SEQUENCE OF, restricted strings) *)
+Definition count_in_range (lo hi : option N) (upper n : N) : Prop :=
+  opt_or lo 0 <= n /\ n <= opt_or hi upper.
+(* F10-1 family: the size constraint has a lower bound and no upper bound, or an upper bound >= 64K *)
+Definition Known_C01_size_F10_1 (lo hi : option N) (upper n : N) : Prop :=
+  count_in_range lo hi upper n /\ Known_C10_length_semi_or_large_bound lo hi.
+(* no fragmentation: 16K or more elements with the unconstrained length form *)
+Definition Known_C01_count_16k (lo hi : option N) (upper n : N) : Prop :=
+  16384 <= n /\ (~ count_in_range lo hi upper n \/ (lo = None /\ hi = None)).
+Definition Known_C01_len (lo hi : option N) (upper n : N) : Prop :=
+  Known_C01_size_F10_1 lo hi upper n \/ Known_C01_count_16k lo hi upper n.
+
+(* open types of 16K octets or more: the writer fragments, the reader does not *)
+Definition Known_C01_open_type_16k (m : mode) (t : ty) (x : val) : Prop :=
+  exists b, enc m t x = Ok b /\ 16384 <= (bl b + 7) / 8.
+
+Definition is_addition (ea : option N) (i : nat) : Prop :=
+  match ea with Some e => (N.to_nat e < i)%nat | None => False end.
+Definition encoded (k : fkind) (x : val) : Prop :=
+  match k with FDef d => val_eqb d x = false | _ => True end.
+
+Fixpoint Known_C01 (m : mode) (t : ty) (v : val) {struct t} : Prop :=
+  match t, v with
+  | TStr Utf8 _ _ _, VStr _ => False
+  | TStr _ lo hi _, VStr cs => Known_C01_len lo hi U64_MAX (N.of_nat (length cs))
+  | TOctets lo hi _, VOctets bs => Known_C10_sized_length lo hi (blen bs)
+  | TBitStr lo hi _, VBits _ n => Known_C10_sized_length lo hi n \/ Known_C10_bitstring_16k lo hi n
+  | TListOf e lo hi _, VList vs =>
+      Known_C01_len lo hi I64_MAX (N.of_nat (length vs)) \/
+      (fix any (vs : list val) : Prop :=
+         match vs with [] => False | x :: r => Known_C01 m e x \/ any r end) vs
+  | TSeq fs _ _ ea, VSeq vals =>
+      (fix any (fs : list (fkind * ty)) (vals : list (option val)) (i : nat) : Prop :=
+         match fs, vals with
+         | (k, ft) :: fs', ov :: vals' =>
+             match ov with
+             | Some x => encoded k x /\
+                         (Known_C01 m ft x \/
+                          (is_addition ea i /\ wraps k ft = true /\ Known_C01_open_type_16k m ft x))
+             | None => False
+             end \/ any fs' vals' (S i)
+         | _, _ => False
+         end) fs vals O
+  | TChoice alts std _, VChoice i x =>
+      (fix pick (alts : list ty) (n : nat) : Prop :=
+         match alts, n with
+         | a :: _, O => Known_C01 m a x \/ (std <= i /\ Known_C01_open_type_16k m a x)
+         | _ :: r, S n' => pick r n'
+         | [], _ => False
+         end) alts (N.to_nat i)
+  | _, _ => False
+  end.
